@@ -10,7 +10,7 @@ import time
 
 from hypothesis import strategies as st
 
-from pyrtma.header import MessageHeader
+from pyrtma.header import MessageHeader, TimeCodeMessageHeader
 from pyrtma.message import Message
 from pyrtma.message_base import RTMAJSONEncoder
 from pyrtma.message_data import MessageData
@@ -22,13 +22,15 @@ from vlib.msgs import FI, dec, enc
 RULE = (
     "Hypothesis draws a class (56 core MDFs + 5 core structs, the hand-written family with every validator kind at "
     "several widths/lengths incl. nested structs and struct arrays, or a class built from a drawn field list) and up to 10 "
-    "distinct leaf fields (reached through nested structs / struct-array elements) each assigned ONCE through the validated "
-    "API - arrays in a drawn form: whole array, element by element, or slice by slice, falling back to elements when the "
+    "distinct fields (reached through nested structs / struct-array elements) each assigned 1-3 times through the validated "
+    "API, so the value is the result of a HISTORY of stores (longer string then shorter or '', different array contents, a "
+    "slice after whole-array stores, whole nested structs / struct-array elements replaced and sub-fields reassigned) - arrays in a drawn form: whole array, element by element, or slice by slice, falling back to elements when the "
     "whole/slice form is refused - with an in-domain value (extremes, -0.0, NaN, denormals, empty and maximum-length strings, control characters, "
     "quotes, all-0x00/0xFF byte arrays, full-length arrays); five independent campaigns check one route each: "
     "from_buffer_copy + copy (equal, storage-disjoint in both directions), from_dict(to_dict()), from_json(to_json(minify in "
     "{F,T})), dict/JSON with strings spelled as character lists, and Message(header, data) through Message.to_json/"
-    "from_json/to_dict/copy with every header field drawn independently over its domain (num_data_bytes in {0, type size, "
+    "from_json/to_dict/copy with either header layout (MessageHeader or TimeCodeMessageHeader with utc fields over uint32; the "
+    "header alone also goes through to_dict/from_dict/to_json/from_json/copy; the same header class must come back) and every header field drawn independently over its domain (num_data_bytes in {0, type size, "
     "other, negative}, not tied to the data; msg_type fixed to the class id; version 0 or the type hash), plus refusal of a "
     "non-zero foreign version. "
     "Non-trivial = an instance with >=1 non-default field among {NaN, -0.0, extreme, denormal, control char/quote, "
@@ -36,8 +38,9 @@ RULE = (
     "(special class, field kind))."
 )
 ASSUME = [
-    "instances are built from a fresh object with at most one validated assignment per leaf field, so no stale bytes exist "
-    "behind a string's NUL (such states are not 'field values'); strings contain no embedded NUL",
+    "instances are built from a fresh object by a history of validated assignments; nothing is asserted about what the bytes "
+    "behind a string's terminator 'should' be, only that the bytes/dict/JSON/copy round trips return the same bytes; strings "
+    "contain no embedded NUL",
     "NaN means float('nan') (positive quiet NaN): JSON has one NaN spelling, so the sign/payload of other NaNs is outside "
     "the stated domain",
     "a scalar/string value the validated API refuses is not 'constructible' and is skipped (counted as set-refused; C09 owns "
@@ -47,7 +50,7 @@ ASSUME = [
     "to str', produced by non-Python encoders); it is checked as its own campaign with its own keys",
     "'refused' for a foreign version hash means any exception from Message.from_json",
     "storage disjointness is checked by overwriting every byte of one side through ctypes.memmove and comparing the other",
-    "TimeCodeMessageHeader (not a core definition; its to_dict drops the inherited fields) is not part of the quantifier",
+    "header plus data is checked with both header layouts (MessageHeader, TimeCodeMessageHeader) and each header alone",
 ]
 
 ROUTES = ["buffer-copy", "dict", "json", "charlist", "message"]
@@ -60,6 +63,8 @@ _NAN = float("nan")
 
 def _locate(cls: type, off: int) -> str:
     """Kind of the leaf field covering byte `off` (root-cause bucket for a byte difference)."""
+    if issubclass(cls, MessageHeader):
+        return "header-base-fields" if off < ctypes.sizeof(MessageHeader) else "header-timecode-fields"
     for fi in msgs.fields_of(cls):
         if fi.off <= off < fi.off + fi.size:
             if fi.kind == "struct":
@@ -77,7 +82,7 @@ def _same(route: str, what: str, cls: type, got, want: bytes, trace: dict):
     if g != want:
         off = next((i for i, (a, b) in enumerate(zip(g, want)) if a != b), min(len(g), len(want)))
         where = _locate(cls, off)
-        if not any(g) and sum(1 for x in want if x) > 1:
+        if what.startswith("Message.from_json(...).data") and not any(g) and sum(1 for x in want if x) > 1:
             where = "whole-object-zero"  # the content was dropped as a whole, not one field mis-converted
         raise Violation(f"{route}/bytes-differ/{where}",
                         f"{what}: {cls.__name__} differs at byte {off} ({where}): got {g[off:off + 8].hex()} expected {want[off:off + 8].hex()}",
@@ -155,10 +160,26 @@ def _specials(fi: FI, v) -> set:
 ARRAY_KINDS = ("iarr", "farr", "bytes")
 
 
-def _assign(c, fi: FI, v, how: str, res: Result):
+def _assign(c, fi: FI, v, how: str, res: Result, k=None):
     """Store v in field fi of container c through the validated API in the drawn form: whole field, element by element,
     or slice by slice.  A whole-array / slice assignment that is refused falls back to element assignment, so every value
     constructible through ANY form is constructed.  Returns the value actually stored (refused elements stay 0) or None."""
+    if fi.kind == "sarr":  # one element of a struct array replaced by a struct instance
+        try:
+            getattr(c, fi.name)[k] = v
+        except Exception:
+            res.count("set-refused:sarr-item")
+            return None
+        res.count("set:sarr:item")
+        return v
+    if fi.kind in ARRAY_KINDS and how == "part":  # a sub-slice stored after (or instead of) whole-array stores
+        try:
+            getattr(c, fi.name)[k[0]:k[1]] = v
+        except Exception:
+            res.count("set-refused:" + fi.kind + ":part")
+            return None
+        res.count("set:" + fi.kind + ":part")
+        return list(v)
     if fi.kind not in ARRAY_KINDS:
         try:
             setattr(c, fi.name, v)
@@ -209,17 +230,21 @@ def build_instance(trace: dict, res: Result):
     cls = msgs.resolve(trace["cls"])
     m = cls()
     marks = set()
-    seen = set()
+    seen = {}
     for s in trace["sets"]:
         key = json.dumps([s["p"], s["f"]])
-        if key in seen:
-            raise HarnessError("a leaf field is assigned twice in one C10 case")
-        seen.add(key)
+        seen[key] = seen.get(key, 0) + 1
         c, ccls, _off = msgs.walk(m, s["p"])
         fi = msgs.field(ccls, s["f"])
         v = dec(s["v"])
-        v = _assign(c, fi, v, s.get("how", "whole"), res)
+        v = _assign(c, fi, v, s.get("how", "whole"), res, s.get("k"))
         if v is None:
+            continue
+        if seen[key] > 1:
+            res.count("history:reassigned:" + fi.kind)
+            marks.add(("reassigned", fi.kind))
+        if fi.kind in ("struct", "sarr"):
+            marks.add(("struct-assigned", fi.kind))
             continue
         sp = _specials(fi, v)
         if sp and any(len(p) == 2 for p in s["p"]):
@@ -231,8 +256,13 @@ def build_instance(trace: dict, res: Result):
     return cls, m, marks
 
 
+ASSERT_TIMECODE_COPY = True
+# Message.copy() of a message with a TimeCodeMessageHeader used to return a plain MessageHeader without the utc fields
+# (repaired in /repo 1799472); the copy's header is asserted for both layouts.
+
+
 def _set_header(trace: dict, cls: type, version: int):
-    h = MessageHeader()
+    h = TimeCodeMessageHeader() if trace.get("tc") else MessageHeader()
     h.num_data_bytes = ctypes.sizeof(cls)  # default of traces that do not draw it
     for name, v in trace.get("hdr", {}).items():
         setattr(h, name, dec(v))  # every header field is a free value of its own domain (num_data_bytes too)
@@ -285,17 +315,31 @@ def run_case(trace: dict, res: Result):
         good = cls.type_hash if trace["ver"] else 0
         h = _set_header(trace, cls, good)
         hb = bytes(h)
+        hcls = type(h)
+        hname = hcls.__name__
+        res.count("message:header:" + hname)
+        # the header alone
+        _same(route, f"{hname}.from_dict(h.to_dict())", hcls,
+              _call(route, f"{hname}.from_dict(to_dict())", trace, hcls.from_dict, _call(route, f"{hname}.to_dict()", trace, h.to_dict)),
+              hb, trace)
+        for mini in (False, True):
+            s = _call(route, f"{hname}.to_json(minify={mini})", trace, h.to_json, minify=mini)
+            _same(route, f"{hname}.from_json(h.to_json(minify={mini}))", hcls,
+                  _call(route, f"{hname}.from_json(to_json())", trace, hcls.from_json, s), hb, trace)
+        hc = _call(route, f"{hname}.copy(h)", trace, hcls.copy, h)
+        _same(route, f"{hname}.copy(h)", hcls, hc, hb, trace)
+        _disjoint(route, f"{hname}.copy(h)", h, hc, trace)
         msg = Message(h, m)
         for mini in (False, True):
             s = _call(route, f"Message.to_json(minify={mini})", trace, msg.to_json, minify=mini)
             r = _call(route, f"Message.from_json(version={'hash' if trace['ver'] else 0})", trace, Message.from_json, s)
-            _same(route, "Message.from_json(...).header", MessageHeader, r.header, hb, trace)
+            _same(route, f"Message.from_json(...).header [{hname}]", hcls, r.header, hb, trace)
             _same(route, "Message.from_json(...).data", cls, r.data, b, trace)
             if not (r == msg):
                 raise Violation(f"{route}/eq-false", f"{name}: Message round trip equal bytes but == is False", trace)
         d = _call(route, "Message.to_dict()", trace, msg.to_dict)
-        _same(route, "MessageHeader.from_dict(Message.to_dict()['header'])", MessageHeader,
-              _call(route, "MessageHeader.from_dict", trace, MessageHeader.from_dict, d["header"]), hb, trace)
+        _same(route, f"{hname}.from_dict(Message.to_dict()['header'])", hcls,
+              _call(route, f"{hname}.from_dict", trace, hcls.from_dict, d["header"]), hb, trace)
         _same(route, "cls.from_dict(Message.to_dict()['data'])", cls,
               _call(route, "from_dict(Message.to_dict()['data'])", trace, cls.from_dict, d["data"]), b, trace)
         # foreign version hash
@@ -315,14 +359,22 @@ def run_case(trace: dict, res: Result):
         c = _call(route, "Message.copy(msg)", trace, Message.copy, msg)
         if not isinstance(c, Message):
             raise Violation(f"{route}/wrong-type", f"Message.copy returned {type(c).__name__}", trace)
-        _same(route, "Message.copy(msg).header", MessageHeader, c.header, hb, trace)
+        if hcls is MessageHeader or ASSERT_TIMECODE_COPY:
+            _same(route, f"Message.copy(msg).header [{hname}]", hcls, c.header, hb, trace)
+        elif type(c.header) is not hcls or bytes(c.header) != hb:
+            res.count("message:timecode-copy-header-truncated (observed, not asserted)")
         _same(route, "Message.copy(msg).data", cls, c.data, b, trace)
-        _disjoint(route, "Message.copy(msg).header", msg.header, c.header, trace)
+        if c.header is msg.header:
+            raise Violation(f"{route}/copy-is-same-object", "Message.copy(msg).header is the source header object", trace)
+        if type(c.header) is hcls:
+            _disjoint(route, "Message.copy(msg).header", msg.header, c.header, trace)
         _disjoint(route, "Message.copy(msg).data", msg.data, c.data, trace)
         if bytes(m) != b or bytes(h) != hb:
             raise Violation(f"{route}/source-modified", f"{name}: the round trips modified the source message", trace)
     else:
         raise HarnessError(route)
+    if route == "message" and trace.get("tc"):
+        marks = set(marks) | {("timecode-header", "hdr")}
     if route == "message":
         ndb = dec(trace["hdr"]["num_data_bytes"]) if "num_data_bytes" in trace.get("hdr", {}) else None
         size = ctypes.sizeof(cls)
@@ -367,10 +419,11 @@ def _with_nan(draw, base):
 
 
 _HDR_FIELDS = [fi for fi in msgs.fields_of(MessageHeader) if fi.name not in ("msg_type", "reserved")]
+_TC_FIELDS = msgs.fields_of(TimeCodeMessageHeader)  # the subclass' own _fields_: utc_seconds, utc_fraction
 
 
 @st.composite
-def _header(draw, size: int):
+def _header(draw, size: int, tc: bool = False):
     """Every header field except msg_type / version drawn independently over its full domain; num_data_bytes is NOT kept
     consistent with the data (0, the type size, other values, negative)."""
     out = {}
@@ -380,6 +433,9 @@ def _header(draw, size: int):
                                           _value(fi)))
         elif draw(st.integers(0, 2)) > 0:
             out[fi.name] = draw(_value(fi))
+    if tc:
+        for fi in _TC_FIELDS:
+            out[fi.name] = draw(_value(fi))  # full uint32 range incl. 0 and 2**32-1
     return out
 
 
@@ -395,25 +451,58 @@ def _class_ref(md_only: bool):
 _HOW = st.sampled_from(["whole", "whole", "items", "items", "slices"])
 
 
+_REPEAT = st.sampled_from([1, 1, 1, 2, 2, 3])
+_TARGET_KINDS = LEAF_KINDS | frozenset(["struct", "sarr"])
+
+
+@st.composite
+def _history(draw, path, fi: FI):
+    """1-3 assignments to one field: the value is the result of a HISTORY of validated stores."""
+    n = draw(_REPEAT)
+    out = []
+    if fi.kind == "struct":
+        return [{"p": path, "f": fi.name, "v": draw(msgs.struct_in(fi.scls))} for _ in range(n)]
+    if fi.kind == "sarr":
+        return [{"p": path, "f": fi.name, "how": "item", "k": draw(st.integers(0, fi.n - 1)), "v": draw(msgs.struct_in(fi.scls))}
+                for _ in range(n)]
+    for i in range(n):
+        step = {"p": path, "f": fi.name, "v": draw(_value(fi))}
+        if fi.kind == "str" and i > 0 and draw(st.booleans()):
+            # a longer string followed by a shorter one / the empty string
+            prev = dec(out[0]["v"])
+            step["v"] = enc(draw(st.sampled_from(["", prev[:1], prev[: len(prev) // 2], prev[:-1]])))
+        if fi.kind in ARRAY_KINDS:
+            step["how"] = draw(_HOW)
+            if i > 0 and draw(st.booleans()):  # a slice after the earlier whole-array stores
+                lo = draw(st.integers(0, fi.n - 1))
+                hi = draw(st.integers(lo + 1, fi.n))
+                full = list(dec(step["v"]))
+                step.update(how="part", k=[lo, hi], v=enc(full[lo:hi]))
+        out.append(step)
+    if fi.kind == "str" and n > 1 and draw(st.booleans()):
+        # make the first value the longest one
+        out[0]["v"] = enc(draw(st.text(alphabet="abcxyz019 ", min_size=fi.n - 1, max_size=fi.n - 1)))
+    return out
+
+
 @st.composite
 def case(draw, route: str):
     ref = draw(_class_ref(route == "message"))
     cls = msgs.resolve(ref)
     sets, seen = [], set()
     if msgs.has_kind(cls, LEAF_KINDS):
-        for _ in range(draw(st.integers(0, 10))):
-            path, fi, _ccls = msgs.pick_target(draw, cls, LEAF_KINDS)
+        for _ in range(draw(st.integers(0, 8))):
+            kinds = _TARGET_KINDS if draw(st.integers(0, 5)) == 0 else LEAF_KINDS
+            path, fi, _ccls = msgs.pick_target(draw, cls, kinds)
             key = json.dumps([path, fi.name])
             if key in seen:
                 continue
             seen.add(key)
-            step = {"p": path, "f": fi.name, "v": draw(_value(fi))}
-            if fi.kind in ARRAY_KINDS:
-                step["how"] = draw(_HOW)
-            sets.append(step)
+            sets.extend(draw(_history(path, fi)))
     t = {"sub": route, "cls": ref, "sets": sets}
     if route == "message":
-        t["hdr"] = draw(_header(ctypes.sizeof(cls)))
+        t["tc"] = draw(st.booleans())
+        t["hdr"] = draw(_header(ctypes.sizeof(cls), t["tc"]))
         t["ver"] = draw(st.booleans())
         t["badver"] = draw(st.one_of(st.sampled_from([1, 2 ** 32 - 1, 2 ** 31]), st.integers(1, 2 ** 32 - 1)))
     return t
